@@ -23,8 +23,9 @@ LEVEL = "exploration"
 # atom -> (written text, expanded value)    Template:a = "A[{{{1}}}]"
 ATOMS = [("1=p", None), ("a", "a"), (" a", " a"), ("a ", "a "), ("\na", "\na"), ("k=v", None), (" k = v ", None), ("k=\nv", None),
          ("2=v", None), ("j= {{a|z}} ", None), ("{{a|x}}", "A[x]"), (" {{a| y }} ", " A[ y ] "), ("x y", "x y"), ("m=", None), ("n={{pad}}", None), ("{{pad}}", " x "),
-         ("t=one\ntwo", None), (" u = * a\n* b\n", None)]
-EXPAND = {"{{a|z}}": "A[z]", "{{pad}}": " x "}
+         ("t=one\ntwo", None), (" u = * a\n* b\n", None),
+         ("{{kn}}=cv", None), ("{{one}}=nv", None), ("{{kv}}", "q=v")]
+EXPAND = {"{{a|z}}": "A[z]", "{{pad}}": " x ", "{{kn}}": "cn", "{{one}}": "1", "{{kv}}": "q=v"}
 
 ECHO = r"""
 local e = {}
@@ -54,6 +55,10 @@ function e.cpf(frame)
   local spec = frags[tonumber(frame.args[1])]
   return frame:callParserFunction(spec.name, unpack(spec.args))
 end
+function e.cpfv(frame)
+  local spec = frags[tonumber(frame.args[1])]
+  return frame:callParserFunction(spec.name, spec.args)
+end
 function e.cpft(frame)
   local spec = frags[tonumber(frame.args[1])]
   return frame:callParserFunction{name = spec.name, args = spec.args}
@@ -66,6 +71,9 @@ LIB = {
     "Template:n": "N[{{{k|d}}}|{{{1|e}}}]",
     "Template:b": "{{{1}}}",
     "Template:pad": " x ",
+    "Template:kn": "cn",
+    "Template:one": "1",
+    "Template:kv": "q=v",
     "Template:w1": "{{#invoke:echo|both|{{{1}}}|k={{{k|}}}}}",
     "Template:w2": "{{w1|{{{1}}}|k={{{k|}}}}}",
     "Template:pw": "{{#invoke:echo|pp|{{{1}}}}}",
@@ -118,7 +126,7 @@ def ref_args(lst):
     for a in lst:
         if table.get(a) is None:
             k, v = a.split("=", 1)
-            d[key_of(k)] = expand_ref(v).strip()
+            d[key_of(expand_ref(k))] = expand_ref(v).strip()
         else:
             v = table[a]
             d[num] = v[:-1] if v.endswith("\n") else v
@@ -131,7 +139,7 @@ def in_domain(lst):
     table = dict(ATOMS)
     for a in lst:
         if table.get(a) is None:
-            keys.append(key_of(a.split("=", 1)[0]))
+            keys.append(key_of(expand_ref(a.split("=", 1)[0])))
         else:
             keys.append(num)
             num += 1
@@ -196,8 +204,10 @@ def check_args(ctx, lst):
         if depth == 2:
             # second hop: w2 forwards again; named k is trimmed on the way
             wantf = {1: wantf[1], "k": wantf["k"]}
+        # a forwarded value that contains '=' is split again when it is substituted for {{{1}}} (known finding, as C04 K11)
+        eq = "_equals_sign_through_parameter" if "=" in fwd[1] and "{{{" not in fwd[1] else ""
         if parse_dump(f) != wantf:
-            out.append(("frame_args_depth%d" % depth, js(parse_dump(f)), js(wantf)))
+            out.append(("frame_args_depth%d%s" % (depth, eq), js(parse_dump(f)), js(wantf)))
         title, pargs = p.split("##", 1)
         if title != ptitle:
             out.append(("parent_title", title, ptitle))
@@ -205,7 +215,7 @@ def check_args(ctx, lst):
         if depth == 2:
             wantp = {1: (fwd[1][:-1] if fwd[1].endswith("\n") else fwd[1]), "k": fwd["k"].strip()}
         if parse_dump(pargs) != wantp:
-            out.append(("parent_args_depth%d" % depth, js(parse_dump(pargs)), js(wantp)))
+            out.append(("parent_args_depth%d%s" % (depth, eq if depth == 2 else ""), js(parse_dump(pargs)), js(wantp)))
     return out
 
 
@@ -241,6 +251,11 @@ def fragments(tier):
             cpfs.append({"name": name, "args": [a]})
             for b in pv[:4]:
                 cpfs.append({"name": name, "args": [a, b]})
+    # long argument lists (order of more than nine arguments)
+    many = ["zz"] + ["c%d=%d" % (i, i) for i in range(1, 11)] + ["dflt"]
+    cpfs.append({"name": "#switch", "args": many})
+    cpfs.append({"name": "#switch", "args": ["c10"] + many[1:]})
+    cpfs.append({"name": "#if", "args": ["", "y", "n"] + ["x"] * 9})
     return frs, ets, cpfs
 
 
@@ -356,7 +371,7 @@ def main(run):
             chunks.append(("hist", (a,), 3))
     frs, ets, cpfs = fragments(run.tier)
     step = 400
-    for which, items in (("pp", frs), ("et", ets), ("cpf", cpfs), ("cpft", cpfs)):
+    for which, items in (("pp", frs), ("et", ets), ("cpf", cpfs), ("cpft", cpfs), ("cpfv", cpfs)):
         for lo in range(0, len(items), step):
             chunks.append(("api", which, items[lo:lo + step], lo))
     for cid, acc, hung in run_chunks(work, chunks, nproc=run.nproc, case_timeout=30):
@@ -366,8 +381,8 @@ def main(run):
         "rule": "frame arguments: every argument list of length <= %d over %d atoms (blanks, newlines, named, numeric-named, nested "
                 "calls as values) x wrapper depth 0,1,2 (invoke on the page; inside a template; inside a template inside a "
                 "template, forwarding {{{1}}} and {{{k|}}}); frame:preprocess: %d grammar fragments of size <= %d; "
-                "frame:expandTemplate: %d (title, args) specs; frame:callParserFunction: %d (name, args) specs in both calling "
-                "conventions; histories on one page: every sequence of <= %d calls over %d (calling context x fragment) calls - "
+                "frame:expandTemplate: %d (title, args) specs; frame:callParserFunction: %d (name, args) specs in the three calling "
+                "conventions (varargs, one argument table, named table); histories on one page: every sequence of <= %d calls over %d (calling context x fragment) calls - "
                 "frame:preprocess of %d fragments (two of which read the parent frame) from the page, from Template:pw with two "
                 "different argument lists, from Template:pw2, and a nested #invoke as an argument value - each compared with the same "
                 "call on a fresh page, both as separate expand() calls and as one text. distinct = distinct cases." % (
